@@ -309,6 +309,25 @@ static uint64_t dig(void) {
     return h;
 }
 
+/* L8: the queue of pending lines is full (10 lines wait because the writer is held back) when two threads send one more
+ * line each, so both sends have to grow the queue.  Everything accepted reaches the writer once and whole.  Under VSX the
+ * growth is explored at the channel's lock points; its real purpose is the free-running thread-sanitizer twin, which sees a
+ * growth done outside the lock (round-4 seed C14-7 - a plain data race, section 9) */
+static void l8(void) {
+    setup_common();
+    if (aws_log_channel_init_background(&chan, A, &writer)) vs_harness_error("channel init");
+    pthread_mutex_lock(&wm); /* the background thread gets stuck inside its first write */
+    for (int i = 0; i < 11; ++i) send_line(2, i);
+    struct sarg a = {0, 1}, b = {1, 1};
+    pthread_t ta, tb;
+    pthread_create(&ta, NULL, sender_fn, &a);
+    pthread_create(&tb, NULL, sender_fn, &b);
+    pthread_join(ta, NULL);
+    pthread_join(tb, NULL);
+    pthread_mutex_unlock(&wm);
+    int cnt[3] = {1, 1, 11};
+    finish_channel(cnt, 3);
+}
 int main(int argc, char **argv) {
     v_init(argc, argv);
     aws_common_library_init(aws_default_allocator());
@@ -319,6 +338,7 @@ int main(int argc, char **argv) {
         {.name = "L4-fg-two-senders", .run = l4, .bound_quick = 2, .bound_thorough = 3, .digest = dig},
         {.name = "L5-pipeline-logf", .run = l5, .bound_quick = 2, .bound_thorough = 3, .digest = dig},
         {.name = "L6-noalloc-two-threads", .run = l6, .bound_quick = 2, .bound_thorough = 4, .digest = dig},
+        {.name = "L8-bg-two-senders-on-a-full-queue", .run = l8, .bound_quick = 1, .bound_thorough = 2, .digest = dig},
         {.name = "L7-noalloc-first-write-fails", .run = l7a, .bound_quick = 1, .bound_thorough = 3, .digest = dig},
         {.name = "L7-noalloc-second-write-fails", .run = l7b, .bound_quick = 1, .bound_thorough = 3, .digest = dig},
     };
